@@ -266,6 +266,8 @@ func run(r *core.Run) {
 			r.Check(out != core.Panic, "panic:"+op, op+" panics on tag-rich garbage")
 		}
 	}
+	// 6. generated client sessions through the real proxies: no proxy goroutine may panic
+	runProxySessions(r)
 }
 
 func firstLine(s string) string {
